@@ -526,6 +526,7 @@ func strCells(v value) []value {
 
 // mkstr builds a string value from byte cells.
 func mkstr(cells []value) value {
+	forceBytes(cells)
 	for _, c := range cells {
 		if isSym(c) {
 			return symstr(append([]value(nil), cells...))
